@@ -204,6 +204,23 @@ func verifSortedKeys(m map[string]*VMValue) (out []string) {
 	return
 }
 
+// VerifResetBuiltinTables rebuilds the shared built-in method tables as freshly stored maps (the state they are in
+// when a process starts), so that an exploration can start every execution from the tables' warm-up state.
+func VerifResetBuiltinTables() {
+	for _, d := range builtinProto {
+		dd, ok := d.V().ReadDictData()
+		if !ok {
+			continue
+		}
+		fresh := &ValueMap{}
+		dd.Dict.Range(func(key string, value *VMValue) bool {
+			fresh.Store(key, value)
+			return true
+		})
+		dd.Dict = fresh
+	}
+}
+
 // VerifMapEntry is the internal state of one key of a ValueMap.
 type VerifMapEntry struct {
 	Key       string
